@@ -126,7 +126,7 @@ def call_never_none(index, fi, call, depth=0):
     return all(never_none(index, t, depth) for t in cands)
 
 
-def predicate(fi, nodes, index=None):
+def predicate(fi, nodes, index=None, keep_calls=()):
     """-> (atoms, rows) or None when there are too many atoms.  For every assignment of truth values to the atoms, the
     statement is reached iff a walk from the function entry that takes, at every test, the edge the assignment selects
     (and every edge at loops / handlers) arrives at one of `nodes`."""
@@ -147,7 +147,8 @@ def predicate(fi, nodes, index=None):
         # a call of a one-expression Boolean helper of the same module stands for that expression
         def visit_Call(self, node):
             self.generic_visit(node)
-            if isinstance(node.func, ast.Name) and node.func.id in helpers and not node.keywords:
+            if isinstance(node.func, ast.Name) and node.func.id in helpers and not node.keywords and \
+                    node.func.id not in keep_calls:
                 params, body = helpers[node.func.id]
                 if len(params) == len(node.args):
                     env = dict(zip(params, node.args))
@@ -301,8 +302,25 @@ def predicate(fi, nodes, index=None):
     return atoms, rows
 
 
-def extract(index, modules=('core', 'parser', 'validation', '__init__', 'base_datatypes', 'utils', 'factories')):
-    """{function qualname: {class: {'atoms': [...], 'rows': [[0/1,...], ...]}}}"""
+def _kept_calls(ref_entry):
+    """names of the functions that occur as calls in the atoms of a reference table: a helper predicate that the reviewed tree
+    did not take apart (it was not a one-expression function then) is not taken apart now either, so that turning
+    `r = <expr>; return r` into `return <expr>` inside a helper does not change the vocabulary of its callers' tables"""
+    out = set()
+    for e in (ref_entry or {}).values():
+        for a in (e or {}).get('atoms', ()):
+            try:
+                t = ast.parse(a[len('raises: '):] if a.startswith('raises: ') else a, mode='eval')
+            except SyntaxError:
+                continue
+            for x in ast.walk(t):
+                if isinstance(x, ast.Call) and isinstance(x.func, ast.Name):
+                    out.add(x.func.id)
+    return out
+
+
+def extract(index, modules=('core', 'parser', 'validation', '__init__', 'base_datatypes', 'utils', 'factories'), ref=None):
+    """{function qualname: {class: {'atoms': [...], 'rows': [[0/1,...], ...]}}}; ref: the reference tables (see _kept_calls)"""
     out = {}
     for fq, fi in sorted(index.functions.items()):
         if fi.module.name not in modules and not fi.module.name.endswith('base_datatypes'):
@@ -311,7 +329,7 @@ def extract(index, modules=('core', 'parser', 'validation', '__init__', 'base_da
         for cls, nodes in sorted(rn.items()):
             if cls in ('<re-raise>', '<dynamic>', 'NotImplementedError', 'AttributeError'):
                 continue
-            pr = predicate(fi, nodes, index)
+            pr = predicate(fi, nodes, index, keep_calls=_kept_calls(ref.get(fq)) if ref else ())
             if pr is None:
                 out.setdefault(fq, {})[cls] = None
                 continue
@@ -530,7 +548,7 @@ BUILTIN_PURE = ('len', 'int', 'str', 'list', 'tuple', 'dict', 'set', 'sorted', '
                 'isinstance', 'getattr', 'hasattr', 'repr', 'format', 'bool', 'float', 'range', 'xrange', 'iter', 'next', 'type')
 
 
-def extract_events(index, modules=('core', 'parser', 'validation', '__init__', 'base_datatypes', 'utils', 'factories', 'mllp')):
+def extract_events(index, modules=('core', 'parser', 'validation', '__init__', 'base_datatypes', 'utils', 'factories', 'mllp'), ref=None):
     out = {}
     for fq, fi in sorted(index.functions.items()):
         mn = fi.module.name
@@ -540,7 +558,7 @@ def extract_events(index, modules=('core', 'parser', 'validation', '__init__', '
             continue
         ev = event_nodes(fi)
         for sig, nodes in sorted(ev.items()):
-            pr = predicate(fi, nodes, index)
+            pr = predicate(fi, nodes, index, keep_calls=_kept_calls(ref.get(fq)) if ref else ())
             if pr is None:
                 out.setdefault(fq, {})[sig] = None
                 continue
